@@ -43,12 +43,14 @@ def gen_op(rng, kind, now, allow_create=True):
     return {"now": now, "req": req, "replies": replies}
 
 
-def gen_instance(rng, api, kinds, t0, allow_create=True):
+def gen_instance(rng, api, kinds, t0, allow_create=True, burst=False):
     did, key = G.gen_ids(rng)
     ops, now = [], t0
     for k in kinds:
-        now += rng.choice([1, 2, 5, 60, 3600]) + rng.choice([0.0, 0.25, 0.5])
-        ops.append(gen_op(rng, k, now, allow_create))
+        # burst: the operations follow each other within the same clock second (a caller that does not wait)
+        now += rng.choice([0, 0, 0.125, 0.25]) if burst else rng.choice([1, 2, 5, 60, 3600]) + rng.choice([0.0, 0.25, 0.5])
+        # create_schedule reads the clock twice (rounded and truncated): at whole seconds the two agree on the date
+        ops.append(gen_op(rng, k, float(int(now)) if k == "createsched" else now, allow_create))
     return {"did": did, "key": key, "api": api, "ops": ops}
 
 
@@ -113,14 +115,19 @@ def _pairs(rng):
     return out
 
 
-def _sequences(rng, n):
+def _sequences(rng, n, burst=False):
     out = []
     for _ in range(n):
         api = rng.choice(["type1", "type2"])
-        pool = [k for k in KINDS15 if api_of(k) == api]
+        pool = [k for k in KINDS15 if api_of(k) == api and not (burst and k == "createsched")]
         kinds = [rng.choice(pool) for _ in range(rng.randrange(3, 21))]
-        out.append({"tz": rng.choice(list(H.FIXED_ZONES)), "instances": [gen_instance(rng, api, kinds, rng.randrange(1_600_000_000, 1_900_000_000))], "schedule": []})
+        out.append({"tz": rng.choice(list(H.FIXED_ZONES)), "instances": [gen_instance(rng, api, kinds, rng.randrange(1_600_000_000, 1_900_000_000), burst=burst)], "schedule": []})
     return out
+
+
+def _pairs_in_one_second(rng):
+    return [{"tz": "UTC", "instances": [gen_instance(rng, api_of(a), [a, b], 1_700_000_000 + rng.randrange(10 ** 6), burst=True)], "schedule": []}
+            for a, b in itertools.product(KINDS15, repeat=2) if api_of(a) == api_of(b) and "createsched" not in (a, b)]
 
 
 def _interleaved(rng, n):
@@ -141,6 +148,8 @@ def streams(ctx):
     rng = ctx.rng
     ctx.run_cases(HIST, "all-ordered-pairs-of-15-operation-kinds", _pairs(rng), exhaustive=True, sample_every=97)
     ctx.run_cases(HIST, "sequences-up-to-20-on-one-connection", _sequences(rng, ctx.n(120, 3000)), exhaustive=False, sample_every=60)
+    ctx.run_cases(HIST, "same-class-pairs-within-one-clock-second", _pairs_in_one_second(rng), exhaustive=True, sample_every=41)
+    ctx.run_cases(HIST, "sequences-within-one-clock-second", _sequences(rng, ctx.n(40, 1000), burst=True), exhaustive=False, sample_every=20)
     ctx.run_cases(HIST, "two-instances-interleaved", _interleaved(rng, ctx.n(250, 7000)), exhaustive=False, sample_every=120)
     # two clients of ONE device (same address, same API class), connected at the same time
     same = [dict(h, same_ip=True) for h in _interleaved(rng, ctx.n(120, 3000)) if h["instances"][0]["api"] == h["instances"][1]["api"]]
